@@ -1371,6 +1371,12 @@ class Function(Ring):
         value, its dtype and the sign of zeros). copy.deepcopy of a traced value
         would otherwise return an object that is in no graph.
         """
+        if numpy.ndim(self.x) == 0 and isinstance(self.x, (numpy.ndarray, algopy.UTPM)):
+            # the copy of a 0-d ARRAY is a 0-d array (updated in place by `op=`),
+            # for every kind of operand: a fresh 0-d buffer holding the value
+            out = algopy.zeros((), dtype=self)
+            out[...] = self
+            return out
         return self * 1
 
     clone = copy
